@@ -633,6 +633,20 @@ pub fn generate(repo: &PathBuf) -> Result<String, String> {
         }
     }
 
+    // `antctl add`: the one mutation of the parsed PeersArgs (ANT_PEERS appended to --peer) must not meet --first
+    let addf = free_fn(&cmd, "add")?;
+    let add_cmd_src = compact(&addf.block);
+    let env_peers_guarded = if add_cmd_src.contains("if!peers_args.first{peers_args.addrs.extend(PeersArgs::read_addr_from_env());}") {
+        true
+    } else if add_cmd_src.contains("peers_args.addrs.extend(PeersArgs::read_addr_from_env());") {
+        false
+    } else {
+        return Err("cmd::node::add: how ANT_PEERS reaches peers_args.addrs is not a shape I know".into());
+    };
+    if add_cmd_src.matches("peers_args.").count() != add_cmd_src.matches("peers_args.addrs.extend").count() + add_cmd_src.matches("peers_args.first").count() + add_cmd_src.matches("peers_args.bootstrap_cache_dir=bootstrap_cache_dir").count() {
+        return Err("cmd::node::add: peers_args is modified in a way I do not know".into());
+    }
+
     // (e) clap surface
     let surface = uc::surface(repo)?;
 
@@ -656,6 +670,7 @@ pub fn generate(repo: &PathBuf) -> Result<String, String> {
     s.push_str(&lean_assoc("upgradeLiteral", "`UpgradeOptions { .. }` in `cmd::node::upgrade`; `node.x` is written as the registry field x, `#env` = provided-or-registry-wide environment, `#cli.x` = other locals", &up_lit));
     s.push_str(&format!("/-- `add_node` stores `options.env_variables` registry-wide when it is `Some` -/\ndef registryEnvFromInstall : Bool := {}\n", lean_bool(reg_env)));
     s.push_str(&format!("/-- `add_node` lower-cases the owner before using it in both literals -/\ndef ownerLowercased : Bool := {}\n", lean_bool(owner_lower)));
+    s.push_str(&format!("/-- `antctl add` appends `ANT_PEERS` to `--peer` only when `--first` is not set -/\ndef envPeersSkippedForFirst : Bool := {}\n", lean_bool(env_peers_guarded)));
     s.push_str(&lean_pairs("evmDisplay", "`Display for evmlib::Network`: variant ↦ printed subcommand word", &evm_display));
     s.push_str(&lean_pairs("logFormatAsStr", "`LogFormat::as_str`", &as_str));
     s.push_str(&lean_pairs("logFormatParse", "`LogFormat::parse_from_str`: accepted literal ↦ itself", &parse_from));
